@@ -332,6 +332,7 @@ func (e *symEval) run(stmts []ast.Stmt) {
 func runC14(p *eng.Prog, r *eng.Report, tier string) {
 	c := &cx{p, r, tier}
 	c14Stanza(c)
+	stanzaIsTable(c, "C14.9")
 	c14Handler(c)
 	c14Routers(c)
 	c14Options(c)
